@@ -46,7 +46,7 @@ CHECKS = {
          "DESIGN.md §5 C17"),
  "C16": ("exploration",
          "runtime differential monitor (decoded slug vs baseline) over spellings / working directories / symlinked roots / call histories, and the Go race detector over concurrent Pack calls",
-         "For every generated tree and option set the decoded entry list of Pack by the absolute clean path is compared with the lists obtained under 18 variations of spelling, working directory, route through symlinks and preceding calls; concurrent rounds (fresh race-instrumented process each, 8-16 goroutines behind a barrier, default-rule and negation-first rule files mixed) compare every output with a solo run and treat any race-detector report as a violation.",
+         "For every generated tree and option set the decoded entry list of Pack by the absolute clean path is compared with the lists obtained under 21 variations of spelling, working directory, route through symlinks and preceding calls; concurrent rounds (fresh race-instrumented process each, 8-16 goroutines behind a barrier, default-rule and negation-first rule files mixed) compare every output with a solo run and treat any race-detector report as a violation.",
          "Interleavings are those the scheduler produced; the baseline is produced by the same code in the same process.",
          "DESIGN.md §5 C16"),
  "C03": ("exploration",
@@ -72,7 +72,7 @@ CHECKS = {
  "C20": ("exploration",
          "runtime monitor: Meta.Files / Meta.Size vs an independent archive/tar decode of every slug produced by the C02 and C05 workloads",
          "Every successful Pack over the C02 trees and the C05 link worlds (dereferenced files and directories, ignored subtrees, allow-lists, empty trees) is decoded independently; Meta.Files must equal the header names in order, Meta.Size must equal the content bytes read back for regular entries and the sum of their header sizes.",
-         "No claim when Pack fails.",
+         "No claim when Pack fails (a further exhaustive phase shrinks, grows, removes or replaces a file while Pack is reading the tree: when Pack still returns a Meta it must describe the slug).",
          "DESIGN.md §5 C20"),
  "C01": ("exploration",
          "runtime snapshot-diff monitor (incl. ctime/inode/content hash) around Unpack in a chroot arena; exhaustive short entry sequences + PRNG + reader faults at every offset",
